@@ -1,25 +1,35 @@
-(* C10, composition with the gate: the messages correct operators emit in a fault-free first round are
-   accepted by a correct peer's validator, in WHATEVER order they arrive, when each is validated inside
-   its slot / round window.  [validate_consensus] is the model of validateConsensusMessage; the per-signer
-   state it threads is the only coupling between messages, so the proof is an invariant over that state. *)
+(* C10, composition with the gate: the messages correct operators emit in one round of a duty are accepted by a
+   correct peer's validator, in WHATEVER order they arrive, when each is validated inside its slot / round window.
+   [validate_consensus] is the model of validateConsensusMessage; the per-signer state it threads is the only
+   coupling between messages, so the proof is an invariant over that state. *)
 From Coq Require Import List NArith ZArith Bool Lia.
-From SSV Require Import Gen.ValidationConsts Validation.Model Validation.ProofsHist.
+From SSV Require Import Gen.ValidationConsts Validation.Model Validation.ProofsPanic Validation.ProofsHist.
 Import ListNotations.
 Local Open Scope Z_scope.
 
 Section HonestRound.
 Variables (c : cfg) (sh : share) (role : N) (h rho ld v fdlen nrc : N) (rcfull : bool) (nrcj npj : N).
+(* the signers of the decided message (aggregated commit) operator [s] broadcasts when it decides *)
+Variable dsig : N -> list N.
 
-(* what a correct operator [s] broadcasts in round [rho] of height [h]: type [t] in proposal / prepare / commit /
-   round change, well-formed signature, its own id as the only signer; the proposal carries the value and, after
-   the first round, [nrc] round changes (and [npj] prepares) as its justification; a round change of a prepared
-   operator ([rcfull]) carries the prepared value and [nrcj] prepares *)
-(* which messages carry the value: the proposal, and - when the operators are prepared ([rcfull]) - the round change *)
-Definition carries (t : N) : bool := N.eqb t qbftProposalMsgType || (N.eqb t qbftRoundChangeMsgType && rcfull).
+(* An item (t, s): t = 0..3 is the single-signer message of that QBFT type from operator s; t = 4 is the decided
+   message operator s broadcasts - a commit signed by [dsig s]. *)
+Definition tDecided : N := 4%N.
+Definition is_dec (t : N) : bool := N.eqb t tDecided.
+Definition mtype (t : N) : N := if is_dec t then qbftCommitMsgType else t.
+Definition msigners (t s : N) : list N := if is_dec t then dsig s else [s].
 
+(* which messages carry the value: the proposal, the decided message, and - when the operators are prepared
+   ([rcfull]) - the round change *)
+Definition carries (t : N) : bool :=
+  N.eqb t qbftProposalMsgType || (N.eqb t qbftRoundChangeMsgType && rcfull) || is_dec t.
+
+(* what a correct operator [s] broadcasts in round [rho] of height [h]: well-formed signature; the proposal carries
+   the value and, after the first round, [nrc] round changes (and [npj] prepares) as its justification; a round
+   change of a prepared operator ([rcfull]) carries the prepared value and [nrcj] prepares *)
 Definition hmsg (t s : N) : cmsg :=
-  {| c_sig_len := signatureSize; c_sig_zero := false; c_type := t; c_height := h; c_round := rho;
-     c_signers := [s]; c_fd_len := if carries t then fdlen else 0%N;
+  {| c_sig_len := signatureSize; c_sig_zero := false; c_type := mtype t; c_height := h; c_round := rho;
+     c_signers := msigners t s; c_fd_len := if carries t then fdlen else 0%N;
      c_fd_id := if carries t then v else 0%N;
      c_root_ok := carries t;                        (* only read for messages that carry data *)
      c_pj_ok := true; c_pj_len := if N.eqb t qbftProposalMsgType then npj else 0%N; c_rcj_ok := true;
@@ -27,13 +37,34 @@ Definition hmsg (t s : N) : cmsg :=
                   else if N.eqb t qbftRoundChangeMsgType then nrcj else 0%N;
      c_just_ok := true; c_duty_ok := true |}.
 
+Definition member (x : N) : Prop := x <> 0%N /\ in_committee x sh = true.
+
+Fixpoint increasing (prev : N) (l : list N) : Prop :=
+  match l with [] => True | x :: tl => (prev < x)%N /\ increasing x tl end.
+
+(* the signer list of a decided message: strictly increasing ids of committee members, at least a quorum and at
+   least two, not more than the committee *)
+Definition decided_signers_ok (l : list N) : Prop :=
+  (1 < length l)%nat /\ has_quorum sh (length l) = true /\ (length l <= length (s_committee sh))%nat /\
+  increasing 0 l /\ Forall member l.
+
 Definition honest_item (x : N * N) : Prop :=
   let '(t, s) := x in
-  (t = qbftProposalMsgType \/ t = qbftPrepareMsgType \/ t = qbftCommitMsgType \/ t = qbftRoundChangeMsgType) /\
-  s <> 0%N /\ in_committee s sh = true /\ (t = qbftProposalMsgType -> s = ld).
+  ((t = qbftProposalMsgType \/ t = qbftPrepareMsgType \/ t = qbftCommitMsgType \/ t = qbftRoundChangeMsgType) /\
+   member s /\ (t = qbftProposalMsgType -> s = ld))
+  \/ (t = tDecided /\ decided_signers_ok (dsig s)).
 
+(* counting what has been delivered *)
 Definition cnt (sent : list (N * N)) (t s : N) : Z :=
   if existsb (fun x => N.eqb (fst x) t && N.eqb (snd x) s) sent then 1 else 0.
+
+Definition mem_n (x : N) (l : list N) : bool := existsb (N.eqb x) l.
+
+Definition in_decided (x : N) (it : N * N) : bool := is_dec (fst it) && mem_n x (dsig (snd it)).
+
+Definition cntd (sent : list (N * N)) (x : N) : Z := Z.of_nat (length (filter (in_decided x) sent)).
+
+Definition ndec (l : list (N * N)) : Z := Z.of_nat (length (filter (fun it => is_dec (fst it)) l)).
 
 Lemma cnt_not_in : forall sent t s, ~ In (t, s) sent -> cnt sent t s = 0.
 Proof.
@@ -51,27 +82,46 @@ Proof.
   destruct (N.eqb_spec t' t); destruct (N.eqb_spec s' s); simpl; try reflexivity. subst. contradiction.
 Qed.
 
-(* the state of signer [s] after the messages of [sent]: nothing yet and no state, or nothing yet and a state left
-   by an EARLIER round of this duty (whatever was counted there), or the exact account of what [s] sent in [rho] *)
-Definition current (sent : list (N * N)) (s : N) (ss : sstate) : Prop :=
+Lemma cntd_cons : forall sent it x,
+  cntd (it :: sent) x = (if in_decided x it then 1 else 0) + cntd sent x.
+Proof. intros. unfold cntd. cbn [filter]. destruct (in_decided x it); cbn [length]; lia. Qed.
+
+Lemma cntd_le_ndec : forall sent x, cntd sent x <= ndec sent.
+Proof.
+  intros sent x. unfold cntd, ndec. induction sent as [|it tl IH]; cbn [filter]; [lia|].
+  unfold in_decided at 1. destruct (is_dec (fst it)); cbn [andb].
+  - destruct (mem_n x (dsig (snd it))); cbn [length]; lia.
+  - exact IH.
+Qed.
+
+Lemma ndec_cons : forall it l, ndec (it :: l) = (if is_dec (fst it) then 1 else 0) + ndec l.
+Proof. intros. unfold ndec. cbn [filter]. destruct (is_dec (fst it)); cbn [length]; lia. Qed.
+
+(* the state of signer [x] after the messages of [sent]: nothing from or with x yet and no state, or nothing yet and
+   a state left by an EARLIER round of this duty, or the exact account of what x sent / co-signed in [rho] *)
+Definition current (sent : list (N * N)) (x : N) (ss : sstate) : Prop :=
   ss_slot ss = h /\ ss_round ss = rho /\
-  n_proposal (ss_counts ss) = cnt sent qbftProposalMsgType s /\
-  n_prepare (ss_counts ss) = cnt sent qbftPrepareMsgType s /\
-  n_commit (ss_counts ss) = cnt sent qbftCommitMsgType s /\
-  n_rc (ss_counts ss) = cnt sent qbftRoundChangeMsgType s /\
+  n_proposal (ss_counts ss) = cnt sent qbftProposalMsgType x /\
+  n_prepare (ss_counts ss) = cnt sent qbftPrepareMsgType x /\
+  n_commit (ss_counts ss) = cnt sent qbftCommitMsgType x /\
+  n_rc (ss_counts ss) = cnt sent qbftRoundChangeMsgType x /\
+  n_decided (ss_counts ss) = cntd sent x /\
   0 <= ss_duties ss <= 1 /\
   (ss_pdata ss = None \/ ss_pdata ss = Some v).
 
 Definition earlier_round (ss : sstate) : Prop :=
   ss_slot ss = h /\ (ss_round ss < rho)%N /\ 0 <= ss_duties ss <= 1.
 
-Definition sinv (sent : list (N * N)) (s : N) (o : option sstate) : Prop :=
+Definition untouched (sent : list (N * N)) (x : N) : Prop :=
+  (forall t, is_dec t = false -> ~ In (t, x) sent) /\ cntd sent x = 0.
+
+Definition sinv (sent : list (N * N)) (x : N) (o : option sstate) : Prop :=
   match o with
-  | None => forall t, ~ In (t, s) sent
-  | Some ss => current sent s ss \/ (earlier_round ss /\ forall t, ~ In (t, s) sent)
+  | None => untouched sent x
+  | Some ss => current sent x ss \/ (earlier_round ss /\ untouched sent x)
   end.
 
-Definition inv (sent : list (N * N)) (cs : cstate) : Prop := forall s, sinv sent s (get_signer s cs).
+Definition inv (sent : list (N * N)) (cs : cstate) : Prop := forall x, sinv sent x (get_signer x cs).
 
 Hypothesis Hrole : (N.eqb role roleValidatorRegistration || N.eqb role roleVoluntaryExit) = false.
 Hypothesis Hvalid : valid_role role = true.
@@ -91,33 +141,84 @@ Proof.
     (eexists; split; [vm_compute; reflexivity|apply N.ltb_ge; lia]).
 Qed.
 
+(* the shape of an item *)
+Lemma item_cases : forall t s, honest_item (t, s) ->
+  (is_dec t = false /\ mtype t = t /\ msigners t s = [s] /\ member s /\
+   (t = qbftProposalMsgType \/ t = qbftPrepareMsgType \/ t = qbftCommitMsgType \/ t = qbftRoundChangeMsgType) /\
+   (t = qbftProposalMsgType -> s = ld))
+  \/ (t = tDecided /\ is_dec t = true /\ mtype t = qbftCommitMsgType /\ msigners t s = dsig s /\
+      decided_signers_ok (dsig s)).
+Proof.
+  intros t s [(Ht & Hm & Hl)|(-> & Hd)].
+  - left. assert (E : is_dec t = false) by (destruct Ht as [->|[->|[->| ->]]]; reflexivity).
+    unfold mtype, msigners. rewrite E. auto 10.
+  - right. repeat split; try reflexivity; apply Hd.
+Qed.
+
+Lemma increasing_sorted : forall l p, increasing p l -> is_sorted l = true.
+Proof.
+  induction l as [|a tl IH]; intros p H; [reflexivity|]. destruct tl as [|b tl2]; [reflexivity|].
+  cbn [is_sorted]. destruct H as [_ [Hab Hr]]. apply andb_true_iff. split.
+  - apply N.leb_le. lia.
+  - apply (IH a). split; assumption.
+Qed.
+
+Lemma increasing_loop : forall l p, increasing p l -> Forall member l -> signers_loop sh p l = None.
+Proof.
+  induction l as [|a tl IH]; intros p H F; [reflexivity|]. cbn [signers_loop].
+  destruct H as [Hpa Hr]. inversion F as [|? ? [Ha0 Hain] F']; subst.
+  unfold common_signer. destruct (N.eqb_spec a 0); [contradiction|]. rewrite Hain. cbn [negb].
+  destruct (N.eqb_spec a p); [lia|]. apply IH; assumption.
+Qed.
+
+Lemma increasing_nodup : forall l p, increasing p l -> NoDup l /\ Forall (fun x => (p < x)%N) l.
+Proof.
+  induction l as [|a tl IH]; intros p H; [split; constructor|].
+  destruct H as [Hpa Hr]. destruct (IH a Hr) as [Hn Hf]. split.
+  - constructor; [|exact Hn]. intros Hin. rewrite Forall_forall in Hf. specialize (Hf _ Hin). lia.
+  - constructor; [exact Hpa|]. eapply Forall_impl; [|exact Hf]. intros x Hx. cbn in Hx. lia.
+Qed.
+
 Lemma hmsg_signers_ok : forall t s, honest_item (t, s) -> valid_consensus_signers sh (hmsg t s) = None.
 Proof.
-  intros t s (Ht & Hs & Hin & Hl). unfold valid_consensus_signers. cbn [hmsg c_signers c_type c_height c_round].
-  assert (E1 : (if N.eqb t qbftProposalMsgType
-                then if negb (rr_defined sh h rho) then Some (fail ErrSignerNotLeader)
-                     else match round_robin (s_committee sh) h rho with
-                          | LeaderPanic p => Some (Panic p)
-                          | LeaderIs l => if N.eqb s l then None else Some (fail ErrSignerNotLeader)
-                          end
-                else None) = None).
-  { destruct (N.eqb_spec t qbftProposalMsgType) as [E|E]; [|reflexivity].
-    rewrite Hrr, Hleader. cbn [negb]. rewrite (Hl E), N.eqb_refl. reflexivity. }
-  rewrite E1. cbn [is_sorted negb signers_loop]. unfold common_signer.
-  destruct (N.eqb_spec s 0); [contradiction|]. rewrite Hin. cbn [negb].
-  destruct (N.eqb_spec s 0); [contradiction|]. reflexivity.
+  intros t s Hh. unfold valid_consensus_signers. cbn [hmsg c_signers c_type c_height c_round].
+  destruct (item_cases t s Hh) as [(_ & Emt & Ems & (Hs & Hin) & Ht & Hl)|(-> & _ & Emt & Ems & (L1 & L2 & L3 & L4 & L5))];
+    rewrite Emt, Ems.
+  - assert (E1 : (if N.eqb t qbftProposalMsgType
+                  then if negb (rr_defined sh h rho) then Some (fail ErrSignerNotLeader)
+                       else match round_robin (s_committee sh) h rho with
+                            | LeaderPanic p => Some (Panic p)
+                            | LeaderIs l => if N.eqb s l then None else Some (fail ErrSignerNotLeader)
+                            end
+                  else None) = None).
+    { destruct (N.eqb_spec t qbftProposalMsgType) as [E|E]; [|reflexivity].
+      rewrite Hrr, Hleader. cbn [negb]. rewrite (Hl E), N.eqb_refl. reflexivity. }
+    rewrite E1. cbn [is_sorted negb signers_loop]. unfold common_signer.
+    destruct (N.eqb_spec s 0); [contradiction|]. rewrite Hin. cbn [negb].
+    destruct (N.eqb_spec s 0); [contradiction|]. reflexivity.
+  - destruct (dsig s) as [|a [|b tl]] eqn:Ed; [cbn in L1; lia|cbn in L1; lia|].
+    rewrite N.eqb_refl. cbn [negb]. rewrite L2. cbn [negb orb].
+    assert (E3 : Nat.ltb (length (s_committee sh)) (length (a :: b :: tl)) = false) by (apply Nat.ltb_ge; exact L3).
+    rewrite E3. rewrite (increasing_sorted _ _ L4). cbn [negb].
+    apply increasing_loop; assumption.
 Qed.
 
 Lemma hmsg_just_ok : forall t s, validate_justifications (hmsg t s) = None.
 Proof.
   intros. unfold validate_justifications. cbn [hmsg c_pj_ok c_pj_len c_rcj_ok c_rcj_len c_type c_just_ok negb].
-  destruct (N.eqb t qbftProposalMsgType); cbn [negb andb].
+  destruct (N.eqb_spec t qbftProposalMsgType) as [->|E1]; cbn [negb andb].
   - rewrite !andb_false_r. reflexivity.
-  - destruct (N.eqb t qbftRoundChangeMsgType); cbn [negb andb N.eqb]; rewrite ?andb_false_r; reflexivity.
+  - destruct (N.eqb_spec t qbftRoundChangeMsgType) as [->|E2]; cbn [negb andb N.eqb].
+    + cbn. rewrite ?andb_false_r. reflexivity.
+    + assert (Em : N.eqb (mtype t) qbftProposalMsgType = false).
+      { unfold mtype. destruct (is_dec t); [reflexivity|]. apply N.eqb_neq. exact E1. }
+      rewrite Em. reflexivity.
 Qed.
 
-Lemma hmsg_type_ok : forall t s, honest_item (t, s) -> valid_qbft_type t = true.
-Proof. intros t s ([->|[->|[->| ->]]] & _); reflexivity. Qed.
+Lemma hmsg_type_ok : forall t s, honest_item (t, s) -> valid_qbft_type (mtype t) = true.
+Proof.
+  intros t s Hh. destruct (item_cases t s Hh) as [(_ & -> & _ & _ & [->|[->|[->| ->]]] & _)|(_ & _ & -> & _)]; reflexivity.
+Qed.
 
 Lemma duty_ok : validate_beacon_duty role sh true = None.
 Proof.
@@ -129,50 +230,39 @@ Qed.
 Lemma hmsg_full_data : forall t s, honest_item (t, s) ->
   has_full_data (hmsg t s) = carries t.
 Proof.
-  intros t s ([->|[->|[->| ->]]] & _); unfold has_full_data, is_decided, carries; cbn; try reflexivity.
-  - destruct (N.eqb_spec fdlen 0); [contradiction|reflexivity].
-  - destruct rcfull; cbn; [|reflexivity]. destruct (N.eqb_spec fdlen 0); [contradiction|reflexivity].
+  intros t s Hh. unfold has_full_data, is_decided. cbn [hmsg c_type c_signers c_fd_len].
+  destruct (item_cases t s Hh) as [(Ed & -> & -> & _ & Ht & _)|(-> & _ & -> & -> & (L1 & _))].
+  - unfold carries. rewrite Ed, orb_false_r. cbn [length Nat.ltb Nat.leb]. rewrite andb_false_r, orb_false_r.
+    destruct Ht as [->|[->|[->| ->]]]; cbn; try reflexivity.
+    + destruct (N.eqb_spec fdlen 0); [contradiction|reflexivity].
+    + destruct rcfull; cbn; [|reflexivity]. destruct (N.eqb_spec fdlen 0); [contradiction|reflexivity].
+  - destruct (Nat.ltb_spec 1 (length (dsig s))) as [_|Hc]; [|lia].
+    cbn. destruct (N.eqb_spec fdlen 0); [contradiction|reflexivity].
 Qed.
 
-(* the per-signer check and update *)
+Lemma hmsg_signers_nonempty : forall t s, honest_item (t, s) -> c_signers (hmsg t s) <> [].
+Proof.
+  intros t s Hh. cbn [hmsg c_signers].
+  destruct (item_cases t s Hh) as [(_ & _ & -> & _)|(_ & _ & _ & -> & (L1 & _))]; [discriminate|].
+  intros E. rewrite E in L1. cbn in L1. lia.
+Qed.
+
+(* what recording the message does to the counters of one of its signers *)
 Lemma hmsg_record : forall t s cn, honest_item (t, s) ->
   exists cn', counts_record cn (hmsg t s) = inl cn' /\
     n_proposal cn' = n_proposal cn + (if N.eqb t qbftProposalMsgType then 1 else 0) /\
     n_prepare cn' = n_prepare cn + (if N.eqb t qbftPrepareMsgType then 1 else 0) /\
     n_commit cn' = n_commit cn + (if N.eqb t qbftCommitMsgType then 1 else 0) /\
-    n_rc cn' = n_rc cn + (if N.eqb t qbftRoundChangeMsgType then 1 else 0).
+    n_rc cn' = n_rc cn + (if N.eqb t qbftRoundChangeMsgType then 1 else 0) /\
+    n_decided cn' = n_decided cn + (if is_dec t then 1 else 0).
 Proof.
-  intros t s cn ([->|[->|[->| ->]]] & _); unfold counts_record; cbn;
-    eexists; (split; [reflexivity|]); cbn; lia.
-Qed.
-
-(* the state a first message of round [rho] leaves: counters and proposal data start from nothing *)
-Lemma first_message_state : forall sent t s ss1 cn',
-  honest_item (t, s) -> (forall t', ~ In (t', s) sent) ->
-  ss_slot ss1 = h -> ss_round ss1 = rho -> ss_counts ss1 = zero_counts -> ss_pdata ss1 = None ->
-  0 <= ss_duties ss1 <= 1 ->
-  counts_record (ss_counts ss1) (hmsg t s) = inl cn' ->
-  current ((t, s) :: sent) s
-    {| ss_slot := ss_slot ss1; ss_round := ss_round ss1; ss_counts := cn';
-       ss_pdata := if has_full_data (hmsg t s)
-                   then match ss_pdata ss1 with None => Some (c_fd_id (hmsg t s)) | Some d => Some d end
-                   else ss_pdata ss1;
-       ss_duties := ss_duties ss1 |}.
-Proof.
-  intros sent t s ss1 cn' Hh Hnone A1 A2 A3 A4 A5 Er.
-  destruct (hmsg_record t s (ss_counts ss1) Hh) as (cn2 & Er2 & R1 & R2 & R3 & R4).
-  rewrite Er in Er2. inversion Er2; subst cn2. clear Er2.
-  assert (Hz : forall t', cnt sent t' s = 0) by (intros t'; apply cnt_not_in; apply Hnone).
-  assert (Hcases : forall t', (if N.eqb t t' then 1 else 0) + cnt sent t' s = cnt ((t, s) :: sent) t' s).
-  { intros t'. destruct (N.eqb_spec t t') as [<-|E].
-    - rewrite cnt_cons_same, Hz. reflexivity.
-    - rewrite cnt_cons_other by congruence. lia. }
-  unfold current. cbn [ss_slot ss_round ss_counts ss_duties ss_pdata].
-  rewrite R1, R2, R3, R4, A3. cbn [zero_counts n_proposal n_prepare n_commit n_rc].
-  rewrite <- !Hcases, !Hz.
-  repeat split; try lia; try assumption.
-  rewrite A4, (hmsg_full_data t s Hh). destruct (carries t) eqn:Et; [right|left]; [|reflexivity].
-  cbn [hmsg c_fd_id]. rewrite Et. reflexivity.
+  intros t s cn Hh. unfold counts_record. cbn [hmsg c_type c_signers].
+  destruct (item_cases t s Hh) as [(_ & -> & -> & _ & [->|[->|[->| ->]]] & _)|(-> & _ & -> & -> & (L1 & _))].
+  1-4: cbn; eexists; (split; [reflexivity|]); cbn; lia.
+  assert (E1 : Nat.eqb (length (dsig s)) 1 = false) by (apply Nat.eqb_neq; lia).
+  assert (E2 : Nat.ltb 1 (length (dsig s)) = true) by (apply Nat.ltb_lt; exact L1).
+  unfold qbftProposalMsgType, qbftPrepareMsgType, qbftCommitMsgType, qbftRoundChangeMsgType.
+  cbn [N.eqb Pos.eqb]. rewrite E1, E2. eexists; (split; [reflexivity|]); cbn; lia.
 Qed.
 
 Lemma duty_count_ok : forall ss b, 0 <= ss_duties ss <= 1 -> validate_duty_count ss role b = None.
@@ -185,49 +275,91 @@ Proof.
   - destruct (Z.geb_spec (ss_duties ss) (2 + 1)); [lia|reflexivity].
 Qed.
 
-Lemma signer_step : forall sent cs t s,
-  inv sent cs -> honest_item (t, s) -> ~ In (t, s) sent ->
-  signer_behavior c sh role (hmsg t s) cs s = None /\
-  exists cs', update_signer c (hmsg t s) cs s = inl cs' /\ inv ((t, s) :: sent) cs'.
+(* the counters after the message, in terms of the delivered items *)
+Lemma counts_after : forall sent t s x,
+  honest_item (t, s) -> In x (msigners t s) -> ~ In (t, s) sent ->
+  (if N.eqb t qbftProposalMsgType then 1 else 0) + cnt sent qbftProposalMsgType x = cnt ((t, s) :: sent) qbftProposalMsgType x /\
+  (if N.eqb t qbftPrepareMsgType then 1 else 0) + cnt sent qbftPrepareMsgType x = cnt ((t, s) :: sent) qbftPrepareMsgType x /\
+  (if N.eqb t qbftCommitMsgType then 1 else 0) + cnt sent qbftCommitMsgType x = cnt ((t, s) :: sent) qbftCommitMsgType x /\
+  (if N.eqb t qbftRoundChangeMsgType then 1 else 0) + cnt sent qbftRoundChangeMsgType x = cnt ((t, s) :: sent) qbftRoundChangeMsgType x /\
+  (if is_dec t then 1 else 0) + cntd sent x = cntd ((t, s) :: sent) x.
 Proof.
-  intros sent cs t s I Hh Hn. pose proof (I s) as Is. unfold sinv in Is.
+  intros sent t s x Hh Hx Hn.
+  destruct (item_cases t s Hh) as [(Ed & _ & Ems & _ & Ht & _)|(-> & Ed & _ & Ems & _)]; rewrite Ems in Hx.
+  - destruct Hx as [<-|[]].
+    assert (Hc : forall t', (if N.eqb t t' then 1 else 0) + cnt sent t' s = cnt ((t, s) :: sent) t' s).
+    { intros t'. destruct (N.eqb_spec t t') as [<-|E].
+      - rewrite cnt_cons_same, cnt_not_in by exact Hn. reflexivity.
+      - rewrite cnt_cons_other by congruence. lia. }
+    rewrite cntd_cons. unfold in_decided. cbn [fst]. rewrite Ed. cbn [andb].
+    repeat split; try apply Hc.
+  - rewrite cntd_cons. unfold in_decided. cbn [fst snd]. rewrite Ed. cbn [andb].
+    assert (Em : mem_n x (dsig s) = true).
+    { unfold mem_n. apply existsb_exists. exists x. split; [exact Hx|apply N.eqb_refl]. }
+    rewrite Em. rewrite !cnt_cons_other by (unfold tDecided; intros E; inversion E). cbn. repeat split; lia.
+Qed.
+
+(* one signer of one message: its check passes and its new state is the account of the extended history *)
+Lemma signer_one : forall sent cs t s x,
+  sinv sent x (get_signer x cs) -> honest_item (t, s) -> In x (msigners t s) -> ~ In (t, s) sent ->
+  (is_dec t = true -> ndec sent < max_decided (Z.of_nat (length (s_committee sh)))) ->
+  signer_behavior c sh role (hmsg t s) cs x = None /\
+  exists ss', next_sstate c (hmsg t s) (get_signer x cs) = inl ss' /\ current ((t, s) :: sent) x ss'.
+Proof.
+  intros sent cs t s x Is Hh Hx Hn Hmax.
   pose proof (hmsg_full_data t s Hh) as Hfdm.
-  assert (Hother : forall cs' ss', cs' = set_signer s ss' cs -> current ((t, s) :: sent) s ss' ->
-            inv ((t, s) :: sent) cs').
-  { intros cs' ss' -> Hs s'. destruct (N.eq_dec s' s) as [->|Hne].
-    - rewrite get_signer_set_same. left. exact Hs.
-    - rewrite get_signer_set_other by exact Hne. pose proof (I s') as Is'. unfold sinv, current in *.
-      destruct (get_signer s' cs) as [ss2|].
-      + destruct Is' as [Is'|[Is' Hno]].
-        * left. rewrite !cnt_cons_other by congruence. exact Is'.
-        * right. split; [exact Is'|]. intros t' [E|E]; [congruence|]. exact (Hno t' E).
-      + intros t' [E|E]; [congruence|]. exact (Is' t' E). }
-  unfold signer_behavior, update_signer, next_sstate.
-  destruct (get_signer s cs) as [ss|] eqn:Eg.
-  - destruct Is as [(Hsl & Hrd & Hp & Hpr & Hcm & Hrc & Hdu & Hpd)|[(Hsl & Hrd & Hdu) Hnone]].
+  destruct (counts_after sent t s x Hh Hx Hn) as (C1 & C2 & C3 & C4 & C5).
+  assert (Hfirst : forall ss1 cn',
+            untouched sent x -> ss_slot ss1 = h -> ss_round ss1 = rho -> ss_counts ss1 = zero_counts ->
+            ss_pdata ss1 = None -> 0 <= ss_duties ss1 <= 1 ->
+            counts_record (ss_counts ss1) (hmsg t s) = inl cn' ->
+            current ((t, s) :: sent) x
+              {| ss_slot := ss_slot ss1; ss_round := ss_round ss1; ss_counts := cn';
+                 ss_pdata := if has_full_data (hmsg t s)
+                             then match ss_pdata ss1 with None => Some (c_fd_id (hmsg t s)) | Some d => Some d end
+                             else ss_pdata ss1;
+                 ss_duties := ss_duties ss1 |}).
+  { intros ss1 cn' [Hno Hd0] A1 A2 A3 A4 A5 Er.
+    destruct (hmsg_record t s (ss_counts ss1) Hh) as (cn2 & Er2 & R1 & R2 & R3 & R4 & R5).
+    rewrite Er in Er2. inversion Er2; subst cn2. clear Er2.
+    assert (Hz : forall t', is_dec t' = false -> cnt sent t' x = 0) by (intros t' E; apply cnt_not_in; apply Hno; exact E).
+    unfold current. cbn [ss_slot ss_round ss_counts ss_duties ss_pdata].
+    rewrite R1, R2, R3, R4, R5, A3. cbn [zero_counts n_proposal n_prepare n_commit n_rc n_decided].
+    rewrite <- C1, <- C2, <- C3, <- C4, <- C5, !Hz, Hd0 by reflexivity.
+    repeat split; try lia; try assumption.
+    rewrite A4, Hfdm. destruct (carries t) eqn:Et; [right|left]; [|reflexivity].
+    cbn [hmsg c_fd_id]. rewrite Et. reflexivity. }
+  unfold signer_behavior, next_sstate.
+  destruct (get_signer x cs) as [ss|] eqn:Eg.
+  - destruct Is as [(Hsl & Hrd & Hp & Hpr & Hcm & Hrc & Hdc & Hdu & Hpd)|[(Hsl & Hrd & Hdu) Hun]].
     + (* the signer is already in round rho *)
       cbn [hmsg c_height c_round]. rewrite Hsl, Hrd, !N.ltb_irrefl, !N.eqb_refl. cbn [andb].
       rewrite (duty_count_ok ss false Hdu).
       assert (Hcv : counts_validate (ss_counts ss) (hmsg t s) (length (s_committee sh)) = None).
-      { destruct Hh as ([->|[->|[->| ->]]] & _); unfold counts_validate; cbn.
-        - rewrite Hp, cnt_not_in by exact Hn. reflexivity.
-        - rewrite Hpr, cnt_not_in by exact Hn. reflexivity.
-        - rewrite Hcm, cnt_not_in by exact Hn. reflexivity.
-        - rewrite Hrc, cnt_not_in by exact Hn. reflexivity. }
+      { unfold counts_validate. cbn [hmsg c_type c_signers].
+        destruct (item_cases t s Hh) as [(Ed & -> & Ems & _ & Ht & _)|(-> & Ed & -> & Ems & (L1 & _))]; rewrite Ems.
+        - rewrite Ems in Hx. destruct Hx as [<-|[]].
+          destruct Ht as [->|[->|[->| ->]]]; cbn.
+          + rewrite Hp, cnt_not_in by exact Hn. reflexivity.
+          + rewrite Hpr, cnt_not_in by exact Hn. reflexivity.
+          + rewrite Hcm, cnt_not_in by exact Hn. reflexivity.
+          + rewrite Hrc, cnt_not_in by exact Hn. reflexivity.
+        - assert (E1 : Nat.eqb (length (dsig s)) 1 = false) by (apply Nat.eqb_neq; lia).
+          assert (E2 : Nat.ltb 1 (length (dsig s)) = true) by (apply Nat.ltb_lt; exact L1).
+          unfold qbftProposalMsgType, qbftPrepareMsgType, qbftCommitMsgType, qbftRoundChangeMsgType.
+          cbn [N.eqb Pos.eqb]. rewrite E1, E2. cbn [andb]. rewrite Hdc.
+          pose proof (cntd_le_ndec sent x). pose proof (Hmax eq_refl).
+          destruct (Z.geb_spec (cntd sent x) (max_decided (Z.of_nat (length (s_committee sh))))); [lia|reflexivity]. }
       assert (Hpdm : (has_full_data (hmsg t s) &&
                 match ss_pdata ss with Some d => negb (N.eqb d (c_fd_id (hmsg t s))) | None => false end) = false).
       { rewrite Hfdm. destruct Hpd as [-> | ->]; [apply andb_false_r|]. cbn [hmsg c_fd_id].
         destruct (carries t) eqn:Et; [rewrite N.eqb_refl|]; reflexivity. }
       rewrite Hpdm, Hcv, hmsg_just_ok. split; [reflexivity|].
-      destruct (hmsg_record t s (ss_counts ss) Hh) as (cn' & Er & R1 & R2 & R3 & R4). rewrite Er.
-      eexists. split; [reflexivity|]. eapply Hother; [reflexivity|].
-      assert (Hcases : forall t', (if N.eqb t t' then 1 else 0) + cnt sent t' s = cnt ((t, s) :: sent) t' s).
-      { intros t'. destruct (N.eqb_spec t t') as [<-|E].
-        - rewrite cnt_cons_same, cnt_not_in by exact Hn. reflexivity.
-        - rewrite cnt_cons_other by congruence. lia. }
+      destruct (hmsg_record t s (ss_counts ss) Hh) as (cn' & Er & R1 & R2 & R3 & R4 & R5). rewrite Er.
+      eexists. split; [reflexivity|].
       unfold current. cbn [ss_slot ss_round ss_counts ss_duties ss_pdata].
-      rewrite R1, R2, R3, R4, Hp, Hpr, Hcm, Hrc.
-      rewrite <- !Hcases. repeat split; try lia; try assumption.
+      rewrite R1, R2, R3, R4, R5, Hp, Hpr, Hcm, Hrc, Hdc.
+      rewrite <- C1, <- C2, <- C3, <- C4, <- C5. repeat split; try lia; try assumption.
       rewrite Hfdm. destruct (carries t) eqn:Et; [|exact Hpd].
       destruct Hpd as [-> | ->]; right; cbn [hmsg c_fd_id]; rewrite ?Et; reflexivity.
     + (* the signer's state is from an earlier round of this duty: the round is reset *)
@@ -238,8 +370,8 @@ Proof.
       rewrite E1, E2, E3, (duty_count_ok ss false Hdu), hmsg_just_ok. split; [reflexivity|].
       set (ss1 := reset_round ss rho).
       destruct (hmsg_record t s (ss_counts ss1) Hh) as (cn' & Er & _). rewrite Er.
-      eexists. split; [reflexivity|]. eapply Hother; [reflexivity|].
-      apply (first_message_state sent t s ss1 cn' Hh Hnone); try reflexivity; try exact Er; cbn; assumption.
+      eexists. split; [reflexivity|].
+      apply (Hfirst ss1 cn' Hun); try reflexivity; try exact Er; cbn; assumption.
   - rewrite hmsg_just_ok. split; [reflexivity|].
     cbn [hmsg c_height c_round new_sstate ss_slot ss_round].
     set (ss1 := if (0 <? h)%N then reset_slot new_sstate h rho (epoch_at c 0 <? epoch_at c h)%N
@@ -253,8 +385,69 @@ Proof.
         rewrite E3. cbn. repeat split; lia. }
     destruct H1 as (A1 & A2 & A3 & A4 & A5).
     destruct (hmsg_record t s (ss_counts ss1) Hh) as (cn' & Er & _).
-    fold ss1. rewrite Er. eexists. split; [reflexivity|]. eapply Hother; [reflexivity|].
-    apply (first_message_state sent t s ss1 cn' Hh Is A1 A2 A3 A4 A5 Er).
+    fold ss1. rewrite Er. eexists. split; [reflexivity|].
+    apply (Hfirst ss1 cn' Is A1 A2 A3 A4 A5 Er).
+Qed.
+
+(* a signer the message does not name keeps its account *)
+Lemma signer_other : forall sent t s y o,
+  sinv sent y o -> honest_item (t, s) -> ~ In y (msigners t s) -> sinv ((t, s) :: sent) y o.
+Proof.
+  intros sent t s y o Is Hh Hy.
+  assert (Hc : forall t', is_dec t' = false -> cnt ((t, s) :: sent) t' y = cnt sent t' y).
+  { intros t' Et'. apply cnt_cons_other. intros E. inversion E; subst.
+    destruct (item_cases t' y Hh) as [(_ & _ & Ems & _)|(_ & Ed & _)]; [|congruence].
+    apply Hy. rewrite Ems. left. reflexivity. }
+  assert (Hd : cntd ((t, s) :: sent) y = cntd sent y).
+  { rewrite cntd_cons. unfold in_decided. cbn [fst snd].
+    destruct (item_cases t s Hh) as [(Ed & _)|(_ & Ed & _ & Ems & _)]; rewrite Ed; cbn [andb]; [lia|].
+    assert (Em : mem_n y (dsig s) = false).
+    { unfold mem_n. destruct (existsb (N.eqb y) (dsig s)) eqn:E; [|reflexivity].
+      apply existsb_exists in E. destruct E as (z & Hz & Ez). apply N.eqb_eq in Ez. subst z.
+      exfalso. apply Hy. rewrite Ems. exact Hz. }
+    rewrite Em. lia. }
+  assert (Hu : untouched sent y -> untouched ((t, s) :: sent) y).
+  { intros [Hno Hd0]. split; [|rewrite Hd; exact Hd0].
+    intros t' Et' [E|E]; [|exact (Hno t' Et' E)]. inversion E; subst.
+    destruct (item_cases t' y Hh) as [(_ & _ & Ems & _)|(_ & Ed & _)]; [|congruence].
+    apply Hy. rewrite Ems. left. reflexivity. }
+  unfold sinv in *. destruct o as [ss|]; [|exact (Hu Is)].
+  destruct Is as [Hcur|[He Hun]]; [left|right; split; [exact He|exact (Hu Hun)]].
+  unfold current in *. rewrite !Hc by reflexivity. rewrite Hd. exact Hcur.
+Qed.
+
+Lemma msigners_nodup : forall t s, honest_item (t, s) -> NoDup (msigners t s).
+Proof.
+  intros t s Hh. destruct (item_cases t s Hh) as [(_ & _ & -> & _)|(_ & _ & _ & -> & (_ & _ & _ & L4 & _))].
+  - constructor; [intros []|constructor].
+  - exact (proj1 (increasing_nodup _ _ L4)).
+Qed.
+
+(* all signers of one message *)
+Lemma message_step : forall sent cs t s,
+  inv sent cs -> honest_item (t, s) -> ~ In (t, s) sent ->
+  (is_dec t = true -> ndec sent < max_decided (Z.of_nat (length (s_committee sh)))) ->
+  signers_behavior c sh role (hmsg t s) cs (msigners t s) = None /\
+  exists cs', update_signers c (hmsg t s) cs (msigners t s) = inl cs' /\ inv ((t, s) :: sent) cs'.
+Proof.
+  intros sent cs t s I Hh Hn Hmax. split.
+  - assert (G : forall l, (forall x, In x l -> In x (msigners t s)) ->
+              signers_behavior c sh role (hmsg t s) cs l = None).
+    { induction l as [|a tl IH]; intros Hin; [reflexivity|]. cbn [signers_behavior].
+      destruct (signer_one sent cs t s a (I a) Hh (Hin a (or_introl eq_refl)) Hn Hmax) as [-> _].
+      apply IH. intros x Hx. apply Hin. right. exact Hx. }
+    apply G. auto.
+  - assert (Hty : valid_qbft_type (c_type (hmsg t s)) = true) by (exact (hmsg_type_ok t s Hh)).
+    destruct (update_signers_ok c (hmsg t s) (msigners t s) cs Hty (hmsg_signers_nonempty t s Hh)) as (cs' & Eu).
+    exists cs'. split; [exact Eu|].
+    intros y. rewrite (update_signers_get c (hmsg t s) (msigners t s) cs cs' (msigners_nodup t s Hh) Eu y).
+    destruct (existsb (N.eqb y) (msigners t s)) eqn:Ey.
+    + apply existsb_exists in Ey. destruct Ey as (z & Hz & Ez). apply N.eqb_eq in Ez. subst z.
+      destruct (signer_one sent cs t s y (I y) Hh Hz Hn Hmax) as (_ & ss' & En & Hcur).
+      unfold next_opt. rewrite En. left. exact Hcur.
+    + apply signer_other; [exact (I y)|exact Hh|].
+      intros Hin. assert (existsb (N.eqb y) (msigners t s) = true); [|congruence].
+      apply existsb_exists. exists y. split; [exact Hin|apply N.eqb_refl].
 Qed.
 
 (* one message through validateConsensusMessage *)
@@ -263,16 +456,17 @@ Theorem honest_message_accepted : forall recv verifier sent cs t s,
   ((addw (estimated_round c h recv) allowedRoundsInFuture <? rho)%N = false) ->
   run_verifier verifier = None ->
   inv sent cs -> honest_item (t, s) -> ~ In (t, s) sent ->
+  (is_dec t = true -> ndec sent < max_decided (Z.of_nat (length (s_committee sh)))) ->
   exists cs', validate_consensus c sh role (hmsg t s) recv verifier cs = (Accept, cs') /\
               inv ((t, s) :: sent) cs'.
 Proof.
-  intros recv verifier sent cs t s Htime Hround Hver I Hh Hn.
-  destruct (signer_step sent cs t s I Hh Hn) as (Hb & cs' & Hu & I').
+  intros recv verifier sent cs t s Htime Hround Hver I Hh Hn Hmax.
+  destruct (message_step sent cs t s I Hh Hn Hmax) as (Hb & cs' & Hu & I').
   destruct max_round_ok as (mr & Hmr & Hmr1).
   unfold validate_consensus. rewrite Hrole.
   change (sig_format (c_sig_len (hmsg t s)) (c_sig_zero (hmsg t s))) with (sig_format signatureSize false).
   unfold sig_format. rewrite N.eqb_refl. cbn [negb].
-  change (c_type (hmsg t s)) with t. rewrite (hmsg_type_ok t s Hh). cbn [negb].
+  change (c_type (hmsg t s)) with (mtype t). rewrite (hmsg_type_ok t s Hh). cbn [negb].
   rewrite (hmsg_signers_ok t s Hh).
   change (c_height (hmsg t s)) with h. change (c_round (hmsg t s)) with rho.
   assert (E0 : (rho <? firstRound)%N = false) by (apply N.ltb_ge; exact Hrho1).
@@ -280,13 +474,13 @@ Proof.
   rewrite (hmsg_full_data t s Hh). change (c_root_ok (hmsg t s)) with (carries t).
   rewrite andb_negb_r.
   change (c_duty_ok (hmsg t s)) with true. rewrite duty_ok.
-  change (c_signers (hmsg t s)) with [s]. cbn [signers_behavior]. rewrite Hb, Hver.
-  cbn [update_signers]. rewrite Hu. exists cs'. split; [reflexivity|exact I'].
+  change (c_signers (hmsg t s)) with (msigners t s). rewrite Hb, Hver, Hu.
+  exists cs'. split; [reflexivity|exact I'].
 Qed.
 
 (* ---- a whole round, any arrival order ----------------------------------------------------------- *)
 
-(* every delivery: reception time, (type, signer) *)
+(* every delivery: reception time, item *)
 Fixpoint run_honest (cs : cstate) (l : list (gotime * (N * N))) : list result * cstate :=
   match l with
   | [] => ([], cs)
@@ -299,16 +493,34 @@ Definition timely (recv : gotime) : Prop :=
   validate_slot_time c h role recv = None /\
   (addw (estimated_round c h recv) allowedRoundsInFuture <? rho)%N = false.
 
+(* the decided messages among the deliveries stay below the per-signer limit n * (f + 1) *)
+Definition decided_within_limit (sent l : list (N * N)) : Prop :=
+  ndec sent + ndec l <= max_decided (Z.of_nat (length (s_committee sh))).
+
+Lemma ndec_step : forall sent t s tl,
+  decided_within_limit sent ((t, s) :: tl) ->
+  (is_dec t = true -> ndec sent < max_decided (Z.of_nat (length (s_committee sh)))) /\
+  decided_within_limit ((t, s) :: sent) tl.
+Proof.
+  clear Hfd Hrho1 Hrho6.
+  intros sent t s tl H. unfold decided_within_limit in *. rewrite ndec_cons in H. rewrite ndec_cons. cbn [fst] in *.
+  assert (0 <= ndec tl) by (unfold ndec; lia).
+  destruct (is_dec t); split; try lia; intros E; try discriminate; lia.
+Qed.
+
 Lemma run_honest_accepts : forall l sent cs,
   inv sent cs -> NoDup (map snd l) -> (forall x, In x l -> ~ In (snd x) sent) ->
   Forall (fun x => honest_item (snd x) /\ timely (fst x)) l ->
+  decided_within_limit sent (map snd l) ->
   Forall (eq Accept) (fst (run_honest cs l)).
 Proof.
-  induction l as [|[recv [t s]] tl IH]; intros sent cs I Hnd Hfresh Hall; [constructor|].
-  inversion Hall as [|x l' [Hh [Ht1 Ht2]] Hall']; subst. cbn [fst snd] in *.
+  induction l as [|[recv [t s]] tl IH]; intros sent cs I Hnd Hfresh Hall Hlim; [constructor|].
+  inversion Hall as [|x l' [Hh [Ht1 Ht2]] Hall']; subst. cbn [fst snd map] in *.
   inversion Hnd as [|x l' Hni Hnd']; subst.
+  destruct (ndec_step sent t s (map snd tl) Hlim) as [Hmax Hlim'].
   destruct (honest_message_accepted recv None sent cs t s Ht1 Ht2 eq_refl I Hh) as (cs' & Ev & I').
   { apply (Hfresh (recv, (t, s))). left. reflexivity. }
+  { exact Hmax. }
   cbn [run_honest]. rewrite Ev.
   destruct (run_honest cs' tl) as [rs cs2] eqn:Er. cbn [fst]. constructor; [reflexivity|].
   change rs with (fst (rs, cs2)). rewrite <- Er. eapply IH; eauto.
@@ -317,26 +529,14 @@ Proof.
   - eapply Hfresh; [right; exact Hx|exact E].
 Qed.
 
-(* C10, second sentence, at the gate: from a validator that has seen nothing of this duty, or only earlier rounds
-   of it, the proposal of the round's leader and the prepares, commits and (unprepared) round changes of any
-   operators for round [rho] - each at most once, in ANY order, each validated inside its window - are all accepted. *)
 Definition before_round (cs : cstate) : Prop :=
   forall s, match get_signer s cs with None => True | Some ss => earlier_round ss end.
 
 Lemma before_round_inv : forall cs, before_round cs -> inv [] cs.
 Proof.
-  intros cs H s. specialize (H s). unfold sinv. destruct (get_signer s cs) as [ss|].
-  - right. split; [exact H|]. intros t [].
-  - intros t [].
-Qed.
-
-Theorem honest_round_accepted : forall l cs,
-  before_round cs ->
-  NoDup (map snd l) -> Forall (fun x => honest_item (snd x) /\ timely (fst x)) l ->
-  Forall (eq Accept) (fst (run_honest cs l)).
-Proof.
-  intros l cs Hfresh Hnd Hall. apply (run_honest_accepts l [] cs); auto.
-  apply before_round_inv. exact Hfresh.
+  intros cs H s. specialize (H s). unfold sinv, untouched. destruct (get_signer s cs) as [ss|].
+  - right. split; [exact H|]. split; [intros t _ []|reflexivity].
+  - split; [intros t _ []|reflexivity].
 Qed.
 
 End HonestRound.
